@@ -306,6 +306,10 @@ Inductive case :=
 | CCert (a : auth) (impl : option N)
 | CServe (ep : endpoint) (localIA : N) (s : allowed_set) (p : peer_addr) (a : auth) (q : request)
          (impl : option call)
+| CSeq (localIA : N) (s : allowed_set)
+       (steps : list (endpoint * peer_addr * auth * request * option call))
+    (* consecutive requests on ONE long-lived Server: the service is stateless, every
+       response is determined by its own request (peer, certificate, fields) alone *)
 | CPredef (impl : list N).      (* all p < 2^16 with Protocol(p).IsPredefined() *)
 
 Definition check (c : case) : N :=
@@ -325,6 +329,11 @@ Definition check (c : case) : N :=
                    end)
   | CServe ep l s p a q impl =>
     Check.verdict (option_eqb call_eqb (serve ep l s p a q) impl) (serve_ok ep l s p a q impl)
+  | CSeq l s steps =>
+    Check.verdict
+      (forallb (fun st => let '(ep, p, a, q, impl) := st in
+                          option_eqb call_eqb (serve ep l s p a q) impl) steps)
+      (forallb (fun st => let '(ep, p, a, q, impl) := st in serve_ok ep l s p a q impl) steps)
   | CPredef impl =>
     Check.verdict (list_eqb N.eqb predefined_list impl) true
   end.
@@ -345,6 +354,9 @@ Definition diag (c : case) : list N :=
   | CAllowed s proto p _ => [if validate_allowed_host s proto p then 1 else 0]
   | CCert a _ => match cert_ia a with Some ia => [1; ia] | None => [0] end
   | CServe ep l s p a q _ => match serve ep l s p a q with Some c => code_of_call c | None => [0] end
+  | CSeq l s steps =>
+    concat (map (fun st => let '(ep, p, a, q, _) := st in
+                           match serve ep l s p a q with Some c => code_of_call c | None => [0] end) steps)
   | CPredef _ => predefined_list
   end.
 
